@@ -26,7 +26,7 @@ from .values import (
     js_parse_int,
     js_parse_float,
 )
-from .errors import JSError, MemoryLimitError, TimeLimitError
+from .errors import JSError, JSTypeError, MemoryLimitError, TimeLimitError
 
 
 class Context:
@@ -726,40 +726,43 @@ class Context:
         def stringify_fn(*args):
             value = args[0] if args else UNDEFINED
 
-            # Convert JS value to Python for json.dumps, handling undefined specially
-            def to_json_value(v):
-                if v is UNDEFINED:
-                    return None  # Will be filtered out for object properties
+            # Serialize directly: numbers need JavaScript's number-to-string text
+            # (0.0 -> 0, 1e21 -> 1e+21, NaN/Infinity -> null) and cycles an error
+            active = []
+
+            def serialize(v):
+                """JSON text of v, or None for values JSON.stringify omits."""
                 if v is NULL:
-                    return None
+                    return "null"
                 if isinstance(v, bool):
-                    return v
+                    return "true" if v else "false"
                 if isinstance(v, (int, float)):
-                    return v
+                    if isinstance(v, float) and (math.isnan(v) or math.isinf(v)):
+                        return "null"
+                    return to_string(v)
                 if isinstance(v, str):
-                    return v
-                if isinstance(v, JSArray):
-                    # For arrays, undefined becomes null
-                    return [
-                        None if elem is UNDEFINED else to_json_value(elem)
-                        for elem in v._elements
-                    ]
-                if isinstance(v, JSObject):
+                    return json.dumps(v, ensure_ascii=False)
+                if isinstance(v, (JSFunction, JSCallableObject)) or not isinstance(v, JSObject):
+                    return None  # undefined, functions, host callables
+                if any(v is seen for seen in active):
+                    raise JSTypeError("Converting circular structure to JSON")
+                active.append(v)
+                try:
+                    if isinstance(v, JSArray):
+                        # For arrays, undefined becomes null
+                        return "[" + ",".join(serialize(e) or "null" for e in v._elements) + "]"
                     # For objects, skip undefined values
-                    result = {}
+                    members = []
                     for k, val in v._properties.items():
-                        if val is not UNDEFINED:
-                            result[k] = to_json_value(val)
-                    return result
-                return None
+                        text = serialize(val)
+                        if text is not None:
+                            members.append(json.dumps(k, ensure_ascii=False) + ":" + text)
+                    return "{" + ",".join(members) + "}"
+                finally:
+                    active.pop()
 
-            py_value = to_json_value(value)
-            try:
-                return json.dumps(py_value, separators=(",", ":"))
-            except (TypeError, ValueError) as e:
-                from .errors import JSTypeError
-
-                raise JSTypeError(f"JSON.stringify: {e}")
+            text = serialize(value)
+            return UNDEFINED if text is None else text
 
         json_obj.set("parse", parse_fn)
         json_obj.set("stringify", stringify_fn)
